@@ -5638,9 +5638,7 @@ def merge_parts(parts, reassign="voice"):
     time_multiplier_per_part = [int(lcm / d) for d in parts_quarter_durations]
 
     # create a new part and fill it with all objects in other parts
-    new_part = Part(parts[0].id)
-    new_part._quarter_times = [0]
-    new_part._quarter_durations = [lcm]
+    new_part = Part(parts[0].id, quarter_duration=int(lcm))
 
     note_arrays = [part.note_array(include_staff=True) for part in parts]
     # find the unique number of voices for each part (voice numbers start from 1)
